@@ -199,6 +199,24 @@ impl Ctx {
         self.violation_tagged("", msg, case, recheck)
     }
 
+    /// For properties whose statement includes determinism (C10, C18): a case that fails
+    /// differently — or not at all — on replay is itself a violation ("the outcome depends on
+    /// something other than configuration and input"), not a machinery error. The harness has
+    /// no clock, randomness or scheduling of its own, so replays can only differ because the
+    /// implementation carries state between rewriters.
+    pub fn violation_determinism(&self, msg: String, case: Value, recheck: &dyn Fn() -> Option<String>) {
+        let r1 = recheck();
+        let msg = match r1 {
+            Some(m) if m == msg => msg,
+            Some(m) => format!("{msg} [on replay: {m} — the outcome is not a function of limit, configuration and writes alone]"),
+            None => format!("{msg} [not reproduced on replay — the outcome is not a function of limit, configuration and writes alone]"),
+        };
+        let n = self.violation_count.fetch_add(1, Ordering::SeqCst);
+        if n < 25 {
+            self.violations.lock().unwrap().push(Violation { msg, case });
+        }
+    }
+
     fn violation_tagged(&self, tag: &str, msg: String, case: Value, recheck: &dyn Fn() -> Option<String>) {
         let r1 = recheck();
         let r2 = recheck();
